@@ -126,6 +126,7 @@ class Config:
         self.carried_override: Dict[str, Any] = {}
         self.str_param_names: set = set()
         self.treat_escape_primitive = True
+        self.loop_effects = True      # run loop bodies once generically to record their effects
 
 
 class Run:
